@@ -348,6 +348,14 @@ func (w *polWorld) listenSocks(node, addr, user, pass string) {
 		_ = user
 		_ = pass
 		if !ok {
+			// not a SOCKS5 client: note what else it has to say (the oracle scans every node's bytes for tokens)
+			buf := make([]byte, 4096)
+			tc.SetReadDeadline(time.Now().Add(time.Second))
+			for {
+				if _, err := tc.Read(buf); err != nil {
+					break
+				}
+			}
 			conn.Close()
 			return
 		}
